@@ -255,6 +255,23 @@ fn branch_doc(trivia: &Trivia, branch: &Branch, multi_branch: bool) -> Doc {
             let condition = sequence_doc(trivia, &branch.condition, multi_branch, nest);
             let body = sequence_doc(trivia, consequence, false, nest);
             let body = wrap_breaking_body(consequence, body, multi_branch);
+            // A guard whose last step carries a trailing comment puts `=>` on the next line. The
+            // comment is a line suffix: kept on the guard's own line it would be printed after the
+            // consequence and re-attach to the consequence on the next pass.
+            if branch
+                .condition
+                .chains
+                .last()
+                .is_some_and(|chain| trivia.has_trailing(chain.span))
+            {
+                return pretty::concat(vec![
+                    condition,
+                    pretty::nest(
+                        2,
+                        pretty::concat(vec![pretty::hardline(), pretty::text("=> "), body]),
+                    ),
+                ]);
+            }
             // A guard is normally flattened onto one line so a long consequence does not push it onto
             // `~>` lines — but not when it carries a comment or is itself a breaking pipeline (which
             // forces a break; flattening would comment out / collapse the rest of the line).
@@ -857,6 +874,12 @@ impl Trivia {
             })
             .collect();
         pretty::concat(parts)
+    }
+
+    /// Whether the node starting at `span` carries a trailing comment.
+    fn has_trailing(&self, span: Spanned) -> bool {
+        span.get()
+            .is_some_and(|span| self.trailing.contains_key(&span.offset))
     }
 
     /// Whether the node starting at `span` carries any leading or trailing trivia.
